@@ -230,3 +230,114 @@ def subgraph_init_cases(rng, count):
             continue
         cases.append(_case(f"subinit{len(cases)}:{topo}", m, feeds, topo))
     return cases, rejected
+
+
+# ----------------------------------------------------------------------------------------------- names bound more than once
+
+def binding_profile(proto):
+    """name -> kinds of its bindings over all graphs of the model ("inl": Constant node / initializer that inline_const turns
+    into a literal, "skipped": initializer of more than 4 elements, "other": any other initializer, node output or graph input)"""
+    prof = {}
+
+    def inlinable(t):
+        return t.data_type in (TP.FLOAT, TP.INT64) and (len(t.dims) == 0 or (len(t.dims) == 1 and 0 < t.dims[0] < 5))
+
+    def graph(g):
+        for i in g.input:
+            prof.setdefault(i.name, []).append("other")
+        for i in g.initializer:
+            prof.setdefault(i.name, []).append("skipped" if _size(i) > 4 else ("inl" if inlinable(i) else "other"))
+        for n in g.node:
+            is_inl = n.op_type == "Constant" and len(n.attribute) == 1 and n.attribute[0].HasField("t") and inlinable(n.attribute[0].t)
+            for o in n.output:
+                if o:
+                    prof.setdefault(o, []).append("inl" if is_inl else "other")
+            for a in n.attribute:
+                if a.type == onnx.AttributeProto.GRAPH:
+                    graph(a.g)
+
+    if isinstance(proto, onnx.ModelProto):
+        graph(proto.graph)
+    return prof
+
+
+def reuse_features(proto):
+    prof = binding_profile(proto)
+    multi = {k: v for k, v in prof.items() if len(v) > 1}
+    return {
+        # inline_const: `constants` is keyed by ONNX name and never scoped: a literal registered in one subgraph replaces a
+        # different value of that name in a sibling subgraph unless that one is inlined as well
+        "inline_stale": any("inl" in v and any(x != "inl" for x in v) for v in multi.values()),
+        "inline_reused": any("inl" in v for v in multi.values()),
+        # skip_initializers: the parameter of make_model is also assigned inside the function (a printed initializer / node of that name)
+        "skipped_assigned": any("skipped" in v and any(x != "skipped" for x in v) for v in multi.values()),
+    }
+
+
+# ----------------------------------------------------------------------------------------------- round-6 finding families
+
+def round6_cases(rng):
+    """directed models for three behaviours of the unmodified exporter:
+      sibling-constants   a Constant `c` inlined in the then-branch, another `c` (not inlinable) in the else-branch
+      string-tensor       a STRING tensor attribute whose elements contain the letters nan / inf
+      value-info-type     a value_info whose element type no graph input / output uses (skip_initializers prints value_infos)"""
+    N = h.make_node
+    f32 = lambda v: nh.from_array(np.asarray(v, dtype=np.float32), "value")  # noqa: E731
+    out = []
+    x3 = [np.array(a, dtype=np.float32) for a in ([1, -2, 3], [0.5, 0.5, 2], [4, 5, 6], [-1, 0, 1])]
+    # -- (a)
+    def const_branch(tag, value):
+        """out = x * c, reduced back to [3] when c has rank 2"""
+        nodes = [N("Constant", [], ["c"], value=f32(value))]
+        if np.ndim(value) == 2:
+            ax = tag + "_ax"
+            nodes += [N("Mul", ["x", "c"], [tag + "0"]), N("ReduceSum", [tag + "0", ax], [tag], keepdims=0)]
+            return h.make_graph(nodes, tag + "_g", [], [_vi(tag, TP.FLOAT, [3])], initializer=[nh.from_array(np.array([0], dtype=np.int64), ax)])
+        return h.make_graph(nodes + [N("Mul", ["x", "c"], [tag])], tag + "_g", [], [_vi(tag, TP.FLOAT, [3])])
+
+    for k, (tv, ev) in enumerate([(3.0, np.full((1, 3), 23.0)), (np.full((1, 3), 2.0), 5.0), ([1.0, 2.0, 3.0], np.full((1, 3), 0.5)), (2.0, 7.0)]):
+        g = h.make_graph([N("If", ["b"], ["y"], then_branch=const_branch("t", tv), else_branch=const_branch("e", ev))], "g",
+                         [_vi("x", TP.FLOAT, [3]), _vi("b", TP.BOOL, [])], [_vi("y", TP.FLOAT, [3])])
+        m = h.make_model(g, opset_imports=[h.make_opsetid("", OPSET)], ir_version=9)
+        feeds = [{"x": v, "b": np.asarray(j % 2 == 0)} for j, v in enumerate(x3)]
+        out.append(dict(_case(f"round6:sibling-constants:{k}", m, feeds, "sibling-constants"), family="sibling-constants"))
+    # -- (b)
+    words = [[b"banana", b"info"], [b"plain", b"text"], [b"nan", b"inf", b"-inf"], [b"finance"]]
+    for k, ws in enumerate(words):
+        t = h.make_tensor("value", TP.STRING, [len(ws)], vals=ws)
+        g = h.make_graph([N("Constant", [], ["s"], value=t), N("Identity", ["s"], ["y"]), N("Neg", ["x"], ["z"])], "g", [_vi("x", TP.FLOAT, [3])],
+                         [_vi("y", TP.STRING, [len(ws)]), _vi("z", TP.FLOAT, [3])])
+        m = h.make_model(g, opset_imports=[h.make_opsetid("", OPSET)], ir_version=9)
+        out.append(dict(_case(f"round6:string-tensor:{k}", m, [{"x": v} for v in x3[:2]], "string-tensor"), family="string-tensor"))
+    # -- (c)
+    for k, (vt, used) in enumerate([(TP.INT64, False), (TP.FLOAT, True), (TP.BOOL, False)]):
+        nodes = [N("Shape", ["x"], ["s"]), N("Cast", ["s"], ["sf"], to=TP.FLOAT), N("Add", ["x", "sf"], ["y0"]), N("Greater", ["y0", "x"], ["m"]),
+                 N("Where", ["m", "y0", "x"], ["y"])]
+        vinfo = {TP.INT64: _vi("s", TP.INT64, [1]), TP.FLOAT: _vi("sf", TP.FLOAT, [1]), TP.BOOL: _vi("m", TP.BOOL, [3])}[vt]
+        g = h.make_graph(nodes, "g", [_vi("x", TP.FLOAT, [3])], [_vi("y", TP.FLOAT, [3])], value_info=[vinfo],
+                         initializer=[])
+        m = h.make_model(g, opset_imports=[h.make_opsetid("", OPSET)], ir_version=9)
+        out.append(dict(_case(f"round6:value-info-type:{k}", m, [{"x": v} for v in x3[:3]], "value-info-type"), family="value-info-type"))
+    for c in out:
+        onnx.checker.check_model(c["proto"], full_check=True)
+    return out
+
+
+def string_tensor_with_nan_inf(proto):
+    def nodes(ns):
+        for n in ns:
+            for a in n.attribute:
+                if a.type == onnx.AttributeProto.TENSOR and a.t.data_type == TP.STRING and any(b"nan" in s or b"inf" in s for s in a.t.string_data):
+                    return True
+                if a.type == onnx.AttributeProto.GRAPH and nodes(a.g.node):
+                    return True
+        return False
+    return isinstance(proto, onnx.ModelProto) and nodes(proto.graph.node)
+
+
+def value_info_types_not_in_interface(proto):
+    if not isinstance(proto, onnx.ModelProto):
+        return False
+    g = proto.graph
+    iface = {v.type.tensor_type.elem_type for v in list(g.input) + list(g.output)}
+    return any(v.type.tensor_type.elem_type not in iface for v in g.value_info)
